@@ -37,6 +37,7 @@ class P(b1.Plugin):
         td.variants = [gen.Variant("", "named", fields)]
         td.size = size
         td.generic = generic
+        td.generic_where = generic and rng.random() < 0.5
         if generic:
             fields[0 if fields[0] is not raw else -1].ty_src = "T"
             td.generic_arg = fields[0 if fields[0] is not raw else -1].ty
@@ -149,7 +150,7 @@ def refusal_tie(tie, rng, n):
                 tie["broken"].append("B4: " + bad[0][:200])
                 tie["broken_details"].append({"rust_source": src, "disagreement": bad})
     tie["extra"]["marker_cases"] = hist
-    tie["rule"] += ("; marker tie (in-process): unions whose Debug / PartialEq / Hash attribute has `unsafe` first (accepted), after another "
+    tie["rule"] = tie.get("rule", "") + ("; marker tie (in-process): unions whose Debug / PartialEq / Hash attribute has `unsafe` first (accepted), after another "
                     "parameter, missing, doubled, or misspelt (each must be refused with a diagnostic), model outcome compared")
 
 
@@ -194,7 +195,7 @@ def clone_bound_tie(tie, rng, n):
             tie["broken_details"].append({"rust_source": src, "disagreement": bad})
         ok += 1
     tie["extra"]["union_clone_headers"] = ok
-    tie["rule"] += ("; Clone tie (in-process): 1-3-field unions, generic or not, Clone alone / with Copy, automatic and bound(*) modes: the Clone "
+    tie["rule"] = tie.get("rule", "") + ("; Clone tie (in-process): 1-3-field unions, generic or not, Clone alone / with Copy, automatic and bound(*) modes: the Clone "
                     "impl's appended predicates must be `FieldTy: Copy` per field (resp. `T: Copy`), model agrees")
 
 
